@@ -391,7 +391,11 @@ def checkformat_byteslike(byteslike: Any) -> BytesLike:
 
 def checkformat_natural_int(natural_int: Any) -> int:  # Annotated[int, ">= 1"]
     # Technically a TypeError or ValueError, depending, but meh.
-    if int(natural_int) != natural_int or natural_int < 1:
+    try:
+        as_int = int(natural_int)
+    except OverflowError:  # int(float("inf"))
+        raise ValueError("Expected an integer >= 1.") from None
+    if as_int != natural_int or natural_int < 1:
         raise ValueError("Expected an integer >= 1.")
 
     return natural_int
